@@ -112,8 +112,8 @@ def run(ck, prog, tier, load):
     def hdr_arm(bb, name):
         return any(c[0] == "discr" and (c[2] or "").endswith("StandardHeader") and labels_in(lab, (name,)) for c, lab, a in sh.guards(bb))
 
-    def var_true(bb, var):
-        return any(isinstance(lab, bool) and is_local_named(strip_not(c)[0], var) and ((lab if strip_not(c)[1] else not lab) is True) for c, lab, a in sh.guards(bb))
+    def var_true(bb, locs):
+        return any(l in locs for l in locals_guarding(sh, bb, True))
 
     def call_guard(bb, pat, want, const=None):
         for c, lab, a in sh.guards(bb):
@@ -126,37 +126,56 @@ def run(ck, prog, tier, load):
     def discr_guard(bb, pat, label):
         return any(c[0] == "discr" and e_calls(c, pat) and lab == label for c, lab, a in sh.guards(bb))
 
+    # the decision variables are identified by role, not by name: CL = the Option<u64> local that feeds
+    # PayloadDecoder::length; CH = the bool local(s) whose true edge guards PayloadDecoder::chunked();
+    # SEEN = the bool local(s) written inside the Transfer-Encoding arm that are not CH
+    len_calls = [(bb, t) for bb, t in sh.calls(r"PayloadDecoder::length$")]
+    chk_calls = [(bb, t) for bb, t in sh.calls(r"PayloadDecoder::chunked$")]
+    ck.anchor("C01-b", len(len_calls), 1, "PayloadDecoder::length in set_headers")
+    ck.anchor("C01-b", len(chk_calls), 1, "PayloadDecoder::chunked in set_headers")
+    CL = set(l for l in user_locals(sh, r"Option<u64>$") if any(root_is(sh.op_expr(t["args"][0]), l) for bb, t in len_calls))
+    CH = set(l for bb, t in chk_calls for l in locals_guarding(sh, bb, True))
+    SEEN = set()
+    for l in user_locals(sh, r"^bool$"):
+        if l in CH:
+            continue
+        for d in sh.defs().get(l, []):
+            e = sh.def_expr(d, 4)
+            if e[0] == "const" and e[2] == 1 and hdr_arm(d[1], "TransferEncoding"):
+                SEEN.add(l)
+    ck.anchor("C01-b", len(CL), 1, "Option<u64> local feeding PayloadDecoder::length (the accepted Content-Length)")
+    ck.anchor("C01-b", len(CH), 1, "bool local guarding PayloadDecoder::chunked (the chunked decision)")
+    ck.anchor("C01-b", len(SEEN), 1, "bool local set in the Transfer-Encoding arm (the seen-TE flag)")
     clauses = {
         "repeated Content-Length": lambda bb: hdr_arm(bb, "ContentLength") and call_guard(bb, r"Option::is_some$", True),
         "Content-Length with leading +": lambda bb: hdr_arm(bb, "ContentLength") and call_guard(bb, r"starts_with$", True, ord("+")),
         "Content-Length not a u64": lambda bb: hdr_arm(bb, "ContentLength") and discr_guard(bb, r"str::parse$|FromStr.*from_str$|core::str::<impl str>::parse$", "Err"),
         "Content-Length not text": lambda bb: hdr_arm(bb, "ContentLength") and discr_guard(bb, r"HeaderValue::to_str$|Result.*::map$", "Err"),
-        "repeated Transfer-Encoding": lambda bb: hdr_arm(bb, "TransferEncoding") and var_true(bb, "seen_te"),
+        "repeated Transfer-Encoding": lambda bb: hdr_arm(bb, "TransferEncoding") and var_true(bb, SEEN),
         "Transfer-Encoding not chunked/identity": lambda bb: hdr_arm(bb, "TransferEncoding") and call_guard(bb, r"eq_ignore_ascii_case$", False, "chunked") and call_guard(bb, r"eq_ignore_ascii_case$", False, "identity"),
     }
     for name, pred in clauses.items():
         hit = [bb for bb, e in errs if pred(bb)]
         ck.ob("C01-b.rejection-present", name, bool(hit), sh, hit[0] if hit else None, "set_headers rejects: %s (Err(ParseError::Header) under the corresponding test)" % name)
     # accepting assignments
-    for var, want in (("content_length", "Content-Length accepted only once, without '+', parsed as u64"), ("chunked", "chunked set only for a first Transfer-Encoding equal to `chunked`"), ("seen_te", "")):
-        loc = [i for i, l in enumerate(sh.locals) if l.get("n") == var]
-        for l in loc:
+    for role, locs, want in (("content_length", CL, "Content-Length accepted only once, without '+', parsed as u64"), ("chunked", CH, "chunked set only for a first Transfer-Encoding equal to `chunked`")):
+        for l in sorted(locs):
             for d in sh.defs().get(l, []):
                 e = sh.def_expr(d, 5)
                 if e[0] == "const" and e[2] == 0 or is_agg(e, r"Option::None$"):
                     continue
                 bb = d[1]
-                if var == "content_length":
+                if role == "content_length":
                     ok = hdr_arm(bb, "ContentLength") and discr_guard(bb, r"parse$", "Ok") and call_guard(bb, r"starts_with$", False) and call_guard(bb, r"Option::is_some$", False)
-                    ck.ob("C01-b.accept-dominated", var, ok, sh, bb, want)
-                elif var == "chunked":
-                    ok = hdr_arm(bb, "TransferEncoding") and call_guard(bb, r"eq_ignore_ascii_case$", True, "chunked") and guarded_by(sh, bb, lambda c, lab: isinstance(lab, bool) and is_local_named(strip_not(c)[0], "seen_te") and ((lab if strip_not(c)[1] else not lab) is False))[0]
-                    ck.ob("C01-b.accept-dominated", var, ok, sh, bb, want)
-    for bb, t in sh.calls(r"PayloadDecoder::chunked$"):
-        ck.ob("C01-b.decoder-from-decision", "chunked", var_true(bb, "chunked"), sh, bb, "PayloadDecoder::chunked() only when the `chunked` decision variable is set")
-    for bb, t in sh.calls(r"PayloadDecoder::length$"):
+                    ck.ob("C01-b.accept-dominated", role, ok, sh, bb, want)
+                else:
+                    ok = hdr_arm(bb, "TransferEncoding") and call_guard(bb, r"eq_ignore_ascii_case$", True, "chunked") and guarded_by(sh, bb, lambda c, lab: bool(bool_test(c, lab)) and is_local(bool_test(c, lab)[0], SEEN) and bool_test(c, lab)[1] is False)[0]
+                    ck.ob("C01-b.accept-dominated", role, ok, sh, bb, want)
+    for bb, t in chk_calls:
+        ck.ob("C01-b.decoder-from-decision", "chunked", var_true(bb, CH), sh, bb, "PayloadDecoder::chunked() only when the chunked decision variable is set")
+    for bb, t in len_calls:
         e = sh.op_expr(t["args"][0])
-        ok = any(r[0] in ("var", "phi") and r[2] == "content_length" for r in e_roots(e)) and not var_true(bb, "chunked")
+        ok = root_is(e, CL) and not var_true(bb, CH)
         ck.ob("C01-b.decoder-from-decision", "length", ok, sh, bb, "PayloadDecoder::length(n) takes n from the accepted Content-Length and is not reachable when chunked was chosen")
     # Request::decode: TE conflicts
     succ_rets = [bb for bb, e in rdec.ret_exprs() if agg_chain(e)[0][:2] == ["core::result::Result::Ok", "core::option::Option::Some"]]
@@ -346,5 +365,5 @@ def run(ck, prog, tier, load):
     if rb is not None:
         st = [d for d in rb.defs().get(0, [])]
         to_cr = [d for d in st if any(is_agg(x, r"ChunkedState::BodyCr$") for x in walk(rb.def_expr(d, 6)))]
-        ok = bool(to_cr) and all(guarded_by(rb, d[1], cmp_pred("Le", lambda e: any(r[0] == "arg" and r[2] == "rem" for r in e_roots(e)), is_const_int(0), True))[0] for d in to_cr)
+        ok = bool(to_cr) and all(guarded_by(rb, d[1], cmp_pred("Le", lambda e: root_is(e, args_of_type(rb, r"^&mut u64$")), is_const_int(0), True))[0] for d in to_cr)
         ck.ob("C01-d.body-exact", "read_body", ok, rb, to_cr[0][1] if to_cr else None, "the chunk body ends (-> BodyCr) only on the edge rem == 0 (`rem > 0` false)")
